@@ -20,7 +20,8 @@ from .. import core
 from .. import extract_imports as ei
 from .. import importslib as il
 
-ACTIONS = ("LoadModule", "BindImport", "BindFrom", "DefName", "UseName", "EndModule", "EndUser", "Call", "EndCall")
+ACTIONS = tuple(a for a in ("LoadModule", "BindImport", "BindFrom", "DefName", "UseName", "EndModule", "EndUser",
+                                    "Call", "EndCall"))
 
 
 class Findings(object):
@@ -88,6 +89,10 @@ def classify_dynamic(ctx, data, find, pkg, name, mode, out):
                      pkg, name, mode, out["code"], out["msg"], where[0], where[1], where[2])])
         return True
     if out["cls"] == "AttributeError" and out.get("on"):
+        if not where and out["on"] == pkg and out["name"] == name:
+            # the snippet itself could not fetch the advertised name
+            find.add("AllAdvertised:%s:%s" % (pkg, name), observed=["%s -> %s" % (out["code"], out["msg"])])
+            return True
         mod = il.mod_of_path(data, where[0]) if where else pkg
         find.add("ChainsResolve:%s:%s.%s" % (mod, out["on"], out["name"]),
                  observed=["%s.%s [%s]: %s -> AttributeError: %s at %s" % (
